@@ -14,7 +14,7 @@ THEOREMS = ["C21_dump_accepted", "C21_prefix_eof", "C21_crash", "C21_crash_point
             "C21_two_callers_partial", "C21_writer_two_readers_partial",
             "C21_two_writers_single_write", "C21_hole_at_opcode_boundary", "C21_torn_same_stream_partial",
             "C21_phase3_shape_sweep", "C21_torn_unaligned_refuted", "C21_mixture_refuted",
-            "C21_crash_codegen", "C21_codegen_old_order_refuted",
+            "C21_crash_codegen", "C21_codegen_old_order_refuted", "C21_reader_vs_removal",
             "C21_fixed_routes", "C21_history_example", "C21_unrouted_refuted"]
 
 API = "/src/pymoca/backends/casadi/api.py"
@@ -265,6 +265,8 @@ def transfers_of(op, r):
         return [("reader ", r["reader"]), ("writer ", r["writer"])]
     if op[0] == "two":
         return [("caller A ", r["A"]), ("caller B ", r["B"])]
+    if op[0] == "gap":
+        return [("caller A (writer B removed the cache file: %s) " % r.get("events"), r["A"])]
     if op[0] == "reader2":
         return [("reader A ", r["A"]), ("reader B ", r["B"]), ("writer ", r["writer"])]
     return []
@@ -340,6 +342,9 @@ def encode(case, res):
             lastb = not (r["save_order"] and r["save_order"][-1] == "A")
             ops.append("Two %s %s %s %s %s" % (cq_nat(op[1]), cq_nat(op[2]), _eof(r["A"]), _eof(r["B"]), cq_bool(lastb)))
             obs.append("[%s; %s]" % (OBS[r["A"]["out"]], OBS[r["B"]["out"]]))
+        elif op[0] == "gap":
+            ops.append("Gap %s %s %s %s" % (cq_nat(op[1]), _eof(r["A"]), cq_bool(bool(r["late"])), cq_bool(bool(r["savedfirst"]))))
+            obs.append("[%s; %s]" % (OBS[r["A"]["out"]], OBS.get(r["B"]["out"], "ORaised")))
         elif op[0] == "reader2":
             ops.append("Reader2 %s %s %s %s %s" % (cq_nat(op[1]), _eof(r["writer"]), _eof(r["A"]), _eof(r["B"]),
                                                    cq_nat(_steps(op[2], r["fired"]))))
@@ -383,6 +388,15 @@ def _interleavings(a, b):
 SCHEDULES = [st + x for st in ("AB", "BA") for x in _interleavings("AAA", "BBB")]
 LOCKSTEP = "ABABABAB"
 
+# where the caller stands when the writer's removal of the cache file happens: not started, after its first
+# existence/mtime test of the cache file, at os.walk (all tests done), at its open, after load_model returned
+GAP_POSITIONS = [None, "tested", "walk", "open", "loaded"]
+
+
+def gap_schedule(pos):
+    return ([["A", pos]] if pos else []) + [["B", "removed"], ["A", "end"], ["B", "end"]]
+
+
 SPECIAL_J = [0, 1, 2, 3, 4, 10, 11, 12, 13, 100, 4097, 8193, 8194, 9000, 30000]
 
 
@@ -403,8 +417,11 @@ def random_history(rng, name):
             ops.append(["reader", o, j])
         elif x < 0.84:
             ops.append(["two", o, rng.choice(used), rng.choice(SCHEDULES)])
-        elif x < 0.88:
+        elif x < 0.87:
             ops.append(["reader2", o, j, rng.choice(SCHEDULES)])
+        elif x < 0.90:
+            ops.append(["gap", o, gap_schedule(rng.choice(GAP_POSITIONS)) if rng.random() < 0.7
+                        else ["A"] * rng.randint(0, 5) + [["B", "removed"]] + [rng.choice("AB") for _ in range(3)]])
         elif x < 0.95:
             ops.append(["edit"])
         else:
@@ -445,6 +462,12 @@ def fixed_histories(rng, thorough):
         out.append(mk(name, [["transfer", 0], ["cut", 3000], ["two", 0, 1, sc], ["transfer", 0], ["transfer", 1]]))
         out.append(mk(name, [["transfer", 0], ["cut", 3000], ["two", 1, 0, LOCKSTEP], ["transfer", 1], ["transfer", 0]]))
         out.append(mk(name, [["transfer", 0], ["two", 0, 1, sc], ["transfer", 1]]))                    # A loads, B recompiles
+        # a caller overlapping a codegen writer's removal of the cache file: removal after i steps of the caller
+        # (0 before it starts, 1 after its existence/mtime test, 2 at os.walk, 3 at its open, 4 after load_model);
+        # the writer needs 7 steps up to the removal (its own mtime test, walk, open, loaded, compile, save, removed)
+        for pos in GAP_POSITIONS:
+            out.append(mk(name, [["transfer", 0], ["gap", 0, gap_schedule(pos)], ["transfer", 0]]))
+        out.append(mk(name, [["transfer", 0], ["cut", 2000], ["gap", 0, gap_schedule("tested")], ["transfer", 0]]))
         # a writer in the middle of its write and two readers
         for j in ([1, 2, 3000] if thorough else [1, 3000]):
             out.append(mk(name, [["transfer", 0], ["edit"], ["reader2", 0, j, LOCKSTEP], ["transfer", 0]]))
@@ -562,6 +585,8 @@ def minimise(ctx, case, idx):
     ops = case["ops"][:idx + 1]
     cands = []
     last = ops[-1]
+    if last[0] == "gap":
+        cands.append([["transfer", last[1]], last])
     if last[0] in ("two", "reader2"):
         o = last[1]
         cands.append([last])
@@ -709,6 +734,8 @@ def run(ctx):
                     nontrivial.add((c["name"], "cut", rr["k"], rr["size"]))
                 if op[0] in ("crash", "reader", "reader2") and rr.get("fired"):
                     nontrivial.add((c["name"], op[0], op[1], op[2]))
+                if op[0] == "gap" and rr.get("removed"):
+                    nontrivial.add((c["name"], "gap", op[1], json.dumps(op[2])))
                 if op[0] in ("two", "reader2") and "Recompiled" in (rr["A"]["out"], rr["B"]["out"]):
                     nontrivial.add((c["name"], op[0], op[1], op[2], op[3]))
         v = judge(c, r)
